@@ -1,4 +1,5 @@
 import Munge.Model.Cred
+import Munge.Lemmas.ConfReads
 import Munge.Lemmas.CredC
 /-
 C03 — credential identity is the kernel-attested identity of the requester.
@@ -158,5 +159,11 @@ theorem tail_verdict_is_kernel_on_client (cf : Conf) (env : Env) (rs : ReplaySet
       · rw [if_neg h2]
         show m.errorNum = 18 → False
         omega
+
+/-- The pipeline's source files consult exactly the configuration fields that the model's `Conf` carries (table regenerated
+    from the source on every run): the theorems above, stated for every `cf`, cover every configuration switch that can
+    influence the identity a credential carries.  A new `conf->…` dependence in enc.c / dec.c / cred.c / m_msg.c breaks this. -/
+theorem conf_fields_as_modelled : Munge.Gen.Dec.confReads = Munge.Cred.confAsModelled :=
+  Munge.Cred.conf_reads_as_modelled
 
 end Munge.C03
